@@ -1504,10 +1504,14 @@ class Parameters:
         # Honestly, this function hasn't been tested thoroughly. But it can't be too harmful as its
         # bounded fairly heavily in how much it can adjust feed and thoroughly tested in terms of different scenarios.
 
-        potential_biofuel_increase = (
-            np.minimum(biofuel + increase, max_biofuel) - biofuel
+        # (a quantity that already sits above its ceiling has no room at all, rather than negative room: negative room
+        # would turn into an increase of the other quantity past its own ceiling)
+        potential_biofuel_increase = np.maximum(
+            np.minimum(biofuel + increase, max_biofuel) - biofuel, 0
         )
-        potential_feed_increase = np.minimum(feed + increase, max_feed) - feed
+        potential_feed_increase = np.maximum(
+            np.minimum(feed + increase, max_feed) - feed, 0
+        )
 
         # Check combined increase against total crops available
         total_potential_increase = potential_biofuel_increase + potential_feed_increase
